@@ -837,7 +837,7 @@ func propC14(c *Ctx) {
 	c.Rule("C14.R3", func() {
 		fn := c.Method(childKeeper, "Keeper", "ChangeExecutor")
 		o := c.Ob("C14.R3", "ChangeExecutor: zero every stored power in place; insert plan validator in both indexes; executors := plan.NextExecutors")
-		po := PO{Params: []string{"k", "ctx", "plan"}, Callbacks: true, NoInline: []string{"Keeper).SetValidator", "SetValidatorByConsAddr", "Keeper).SetParams", ".Validate", "GetAllValidators"}}
+		po := PO{Params: []string{"k", "ctx", "plan"}, Callbacks: true, WalkRounds: 2, NoInline: []string{"Keeper).SetValidator", "SetValidatorByConsAddr", "Keeper).SetParams", ".Validate", "GetAllValidators"}}
 		nOK := 0
 		for _, p := range c.Paths(fn, po) {
 			o.Paths++
@@ -848,7 +848,7 @@ func propC14(c *Ctx) {
 				a := p.Events[i].Call.Args
 				key, val := a[2], a[3]
 				if !(key.Op == "opaque" && key.Name == "cbarg0") || val.Op != "update" || val.Name != "ConsPower" || val.Args[1].Key() != "0" ||
-					!(val.Args[0].Op == "opaque" && val.Args[0].Name == "cbarg1") || key.Args[0].String() != val.Args[0].Args[0].String() {
+					!(val.Args[0].Op == "opaque" && val.Args[0].Name == "cbarg1") || !sameArgs(key, val.Args[0]) {
 					o.Fail(c.evPos(&p.Events[i]), "walk writes "+trunc(val.Key(), 120)+" under "+trunc(key.Key(), 80)+" (want the visited record with ConsPower:=0 under its own key)", c.Dump(p, i))
 				}
 			}
@@ -869,6 +869,44 @@ func propC14(c *Ctx) {
 			sc := p.Find(func(ev *Event) bool {
 				return ev.Kind == EvCall && strings.HasSuffix(ev.Call.Name, "Keeper).SetValidatorByConsAddr")
 			})
+			// the explicit form of the walk: a cursor over the full range that is left only when it
+			// is exhausted, every visited position being written back
+			if iters := collEvents(p, len(p.Events), "Validators", "Iterate"); len(walk) == 0 && len(iters) == 1 {
+				walk = iters
+				src := p.Events[iters[0]].Call
+				validAt := func(j int64, want bool) bool {
+					return p.HasFact(len(p.Events), func(a *Term, pol bool) bool {
+						if a.Op != "opaque" || a.Name != "itervalid" || len(a.Args) != 2 || a.Args[0].String() != src.String() {
+							return false
+						}
+						v, ok := a.Args[1].Int()
+						return ok && v == j && pol == want
+					})
+				}
+				n := int64(0)
+				for validAt(n, true) {
+					n++
+				}
+				if !validAt(n, false) {
+					o.Fail(c.W.Pos(fn.Pos()), "the cursor over Validators is left before it is exhausted: not every validator is zeroed", c.Dump(p, -1))
+				}
+				written := map[int64]bool{}
+				for _, i := range collEvents(p, len(p.Events), "Validators", "Set") {
+					key := p.Events[i].Call.Args[2]
+					if key.Op == "opaque" && key.Name == "cbarg0" && len(key.Args) > 0 && key.Args[0].String() == src.String() {
+						pos := int64(0)
+						if len(key.Args) == 2 {
+							pos, _ = key.Args[1].Int()
+						}
+						written[pos] = true
+					}
+				}
+				for j := int64(0); j < n; j++ {
+					if !written[j] {
+						o.Fail(c.W.Pos(fn.Pos()), fmt.Sprintf("cursor position %d is visited but not written back with zero power", j), c.Dump(p, -1))
+					}
+				}
+			}
 			if len(walk) != 1 || p.Events[walk[0]].Call.Args[2].Key() != "nil" {
 				o.Fail(c.W.Pos(fn.Pos()), "success without one full-range walk over Validators", c.Dump(p, -1))
 			}
@@ -966,4 +1004,17 @@ func propC14(c *Ctx) {
 			oa.Fail(c.W.Pos(fn.Pos()), "insertion site not found", nil)
 		}
 	})
+}
+
+// sameArgs: two opaque terms denote the same element (same opening call, same position).
+func sameArgs(a, b *Term) bool {
+	if len(a.Args) != len(b.Args) {
+		return false
+	}
+	for i := range a.Args {
+		if a.Args[i].String() != b.Args[i].String() {
+			return false
+		}
+	}
+	return true
 }
